@@ -66,6 +66,8 @@ var zeroOKGlobals = map[string]bool{
 	"time.Local": true, "time.UTC": true, "time.localLoc": true, "time.utcLoc": true,
 	// nil *os.File: writes to the standard streams are stubbed
 	"os.Stdout": true, "os.Stderr": true, "os.Stdin": true,
+	// an empty struct value
+	"net/http.NoBody": true,
 }
 
 // packages all of whose globals may be used zero-initialised
